@@ -135,6 +135,19 @@ pub fn none_twice() -> bool {
     ok
 }
 
+/// nothing among ids 0..lim was dropped more than once so far
+pub fn none_twice_upto(lim: usize) -> bool {
+    let mut ok = unsafe { *addr_of_mut!(BAD) } == 0;
+    let mut i = 0;
+    while i < lim && i < LN {
+        if count(i as u8) > 1 {
+            ok = false;
+        }
+        i += 1;
+    }
+    ok
+}
+
 /// ids lo..hi have each been dropped exactly `want` times
 pub fn range_count(lo: u8, hi: u8, want: u8) -> bool {
     let mut ok = true;
@@ -219,97 +232,82 @@ fn rem_count(ids: &[u8; 4], lo: usize, hi: usize, want: u8) -> bool {
     ok
 }
 
+/// one take from a symbolic end, checked against the model
+macro_rules! take_one (
+    ($s:ident, $c:ident, $m:ident, $front:expr) => {{
+        if $front {
+            match $c.next() {
+                Some(md) => {
+                    chk!($s, $m.rem() > 0, "C15.consumer.next_none_when_exhausted");
+                    let v = MD::into_inner(md);
+                    chk!($s, $m.rem() > 0 && is_elem(&v, $m.ids[$m.lo], $m.pay[$m.lo]), "C15.consumer.next_hands_over_front_element_unchanged");
+                    drop(v);
+                    if $m.rem() > 0 {
+                        $m.lo += 1;
+                    }
+                }
+                None => {
+                    chk!($s, $m.rem() == 0, "C15.consumer.next_some_while_elements_remain");
+                }
+            }
+        } else {
+            match $c.next_back() {
+                Some(md) => {
+                    chk!($s, $m.rem() > 0, "C15.consumer.next_back_none_when_exhausted");
+                    let v = MD::into_inner(md);
+                    chk!($s, $m.rem() > 0 && is_elem(&v, $m.ids[$m.hi - 1], $m.pay[$m.hi - 1]), "C15.consumer.next_back_hands_over_back_element_unchanged");
+                    drop(v);
+                    if $m.rem() > 0 {
+                        $m.hi -= 1;
+                    }
+                }
+                None => {
+                    chk!($s, $m.rem() == 0, "C15.consumer.next_back_some_while_elements_remain");
+                }
+            }
+        }
+    }};
+);
+
 macro_rules! c15_consumer {
-    ($name:ident, $n:literal) => {
+    ($name:ident, $n:literal, |$p:ident| $arr:expr) => {
         harness! {
-            /// kind=bounded tier=quick bound="ArrayConsumer<L, N>, N fixed per harness (0,1,2,3), symbolic u32 payloads; symbolic sequence of <= N+2 steps among next / next_back / as_slice / as_mut_slice with a payload overwrite / clone (at most 2; the clone is dropped at once or replaces the original, which is dropped); then drop (= early drop after any prefix) or assert_is_empty when empty"
+            /// kind=bounded tier=quick bound="ArrayConsumer<L, N>, N fixed per harness (0,1,2,3), symbolic u32 payloads; symbolic sequence of <= N+2 steps among next / next_back / as_slice / as_mut_slice with a payload overwrite of the first untaken element; then drop (= early drop after any prefix) or assert_is_empty when empty"
             #[kani::unwind(18)]
             fn $name(s) {
                 const N: usize = $n;
                 reset();
                 let mut m = Model { ids: [0, 1, 2, 3], pay: [s.u32(), s.u32(), s.u32(), 0], lo: 0, hi: N };
-                let arr: [L; N] = core::array::from_fn(|i| fresh(m.pay[i]));
+                let arr: [L; N] = {
+                    let $p = &m.pay;
+                    $arr
+                };
                 let mut c = ArrayConsumer::new(arr);
                 let steps = s.upto(N + 2);
-                let mut clones = 0;
-                let mut swapped = false;
                 let mut took_back = false;
+                let mut took_front = false;
                 let mut step = 0;
                 while step < N + 2 {
                     if step < steps {
-                        match s.upto(4) {
-                            0 => match c.next() {
-                                Some(md) => {
-                                    chk!(s, m.rem() > 0, "C15.consumer.next_none_when_exhausted");
-                                    let v = MD::into_inner(md);
-                                    chk!(s, m.rem() > 0 && is_elem(&v, m.ids[m.lo], m.pay[m.lo]), "C15.consumer.next_hands_over_front_element_unchanged");
-                                    drop(v);
-                                    if m.rem() > 0 {
-                                        m.lo += 1;
-                                    }
-                                }
-                                None => {
-                                    chk!(s, m.rem() == 0, "C15.consumer.next_some_while_elements_remain");
-                                }
-                            },
-                            1 => match c.next_back() {
-                                Some(md) => {
-                                    chk!(s, m.rem() > 0, "C15.consumer.next_back_none_when_exhausted");
-                                    let v = MD::into_inner(md);
-                                    chk!(s, m.rem() > 0 && is_elem(&v, m.ids[m.hi - 1], m.pay[m.hi - 1]), "C15.consumer.next_back_hands_over_back_element_unchanged");
-                                    drop(v);
-                                    if m.rem() > 0 {
-                                        m.hi -= 1;
-                                    }
-                                    took_back = true;
-                                }
-                                None => {
-                                    chk!(s, m.rem() == 0, "C15.consumer.next_back_some_while_elements_remain");
-                                }
-                            },
+                        match s.upto(3) {
+                            0 => {
+                                take_one!(s, c, m, true);
+                                took_front = true;
+                            }
+                            1 => {
+                                take_one!(s, c, m, false);
+                                took_back = true;
+                            }
                             2 => {
                                 chk!(s, slice_matches(c.as_slice(), &m), "C15.consumer.as_slice_is_untaken_middle");
                             }
-                            3 => {
+                            _ => {
                                 let sl = c.as_mut_slice();
                                 chk!(s, slice_matches(sl, &m), "C15.consumer.as_mut_slice_is_untaken_middle");
-                                if m.rem() > 0 {
-                                    let j = s.upto(m.rem() - 1);
+                                if m.rem() > 0 && sl.len() > 0 {
                                     let p = s.u32();
-                                    if j < sl.len() {
-                                        sl[j].payload = p;
-                                    }
-                                    m.pay[m.lo + j] = p;
-                                }
-                            }
-                            _ => {
-                                s.assume(clones < 2);
-                                clones += 1;
-                                let before = next_id();
-                                let c2 = c.clone();
-                                let (ok, cids) = clone_matches(c2.as_slice(), &m, before);
-                                chk!(s, ok, "C15.consumer.clone_has_one_fresh_clone_per_untaken_element_in_order");
-                                chk!(s, slice_matches(c.as_slice(), &m), "C15.consumer.clone_leaves_original");
-                                let rem = m.rem();
-                                if s.bool() {
-                                    drop(c2);
-                                    chk!(s, rem_count(&cids, 0, rem, 1), "C15.consumer.drop_drops_untaken_elements_exactly_once");
-                                    chk!(s, rem_count(&m.ids, m.lo, m.hi, 0), "C15.consumer.drop_of_clone_leaves_original_elements");
-                                } else {
-                                    let old = core::mem::replace(&mut c, c2);
-                                    drop(old);
-                                    chk!(s, rem_count(&m.ids, m.lo, m.hi, 1), "C15.consumer.drop_drops_untaken_elements_exactly_once");
-                                    chk!(s, rem_count(&cids, 0, rem, 0), "C15.consumer.drop_of_original_leaves_clone_elements");
-                                    let mut np = [0u32; 4];
-                                    let mut j = 0;
-                                    while j < 3 {
-                                        if j < rem {
-                                            np[j] = m.pay[m.lo + j];
-                                        }
-                                        j += 1;
-                                    }
-                                    m = Model { ids: cids, pay: np, lo: 0, hi: rem };
-                                    swapped = true;
+                                    sl[0].payload = p;
+                                    m.pay[m.lo] = p;
                                 }
                             }
                         }
@@ -325,18 +323,87 @@ macro_rules! c15_consumer {
                 }
                 chk!(s, all_once(), "C15.consumer.every_element_handed_over_or_dropped_exactly_once");
                 cov!(s, N == 0 || (rem == N && steps == N + 2), "C15.cover.consumer_early_drop_of_everything");
-                cov!(s, N == 0 || (rem == 0 && by_assert && took_back), "C15.cover.consumer_drained_both_ends");
-                cov!(s, N == 0 || (swapped && rem + 1 == N), "C15.cover.consumer_continue_on_clone");
-                cov!(s, N < 3 || (rem == 1 && m.lo == 1 && clones == 0), "C15.cover.consumer_drop_with_middle_left");
+                cov!(s, N == 0 || (rem == 0 && by_assert && took_back), "C15.cover.consumer_drained_with_back_takes");
+                cov!(s, N < 3 || (rem == 1 && m.lo == 1 && took_front && took_back), "C15.cover.consumer_drop_with_middle_left");
             }
         }
     };
 }
 
-c15_consumer! {c15_consumer_n0, 0}
-c15_consumer! {c15_consumer_n1, 1}
-c15_consumer! {c15_consumer_n2, 2}
-c15_consumer! {c15_consumer_n3, 3}
+c15_consumer! {c15_consumer_n0, 0, |p| []}
+c15_consumer! {c15_consumer_n1, 1, |p| [fresh(p[0])]}
+c15_consumer! {c15_consumer_n2, 2, |p| [fresh(p[0]), fresh(p[1])]}
+c15_consumer! {c15_consumer_n3, 3, |p| [fresh(p[0]), fresh(p[1]), fresh(p[2])]}
+
+macro_rules! c15_consumer_clone {
+    ($name:ident, $n:literal, |$p:ident| $arr:expr) => {
+        harness! {
+            /// kind=bounded tier=quick bound="ArrayConsumer<L, N>, N fixed per harness (1,2,3), symbolic u32 payloads; k <= N takes from symbolic ends, then clone; either the clone or the original is dropped at once, the survivor gives up to one more element from a symbolic end and is dropped"
+            #[kani::unwind(18)]
+            fn $name(s) {
+                const N: usize = $n;
+                reset();
+                let mut m = Model { ids: [0, 1, 2, 3], pay: [s.u32(), s.u32(), s.u32(), 0], lo: 0, hi: N };
+                let arr: [L; N] = {
+                    let $p = &m.pay;
+                    $arr
+                };
+                let mut c = ArrayConsumer::new(arr);
+                let k = s.upto(N);
+                let mut j = 0;
+                while j < N {
+                    if j < k {
+                        let front = s.bool();
+                        take_one!(s, c, m, front);
+                    }
+                    j += 1;
+                }
+                let before = next_id();
+                let c2 = c.clone();
+                let (ok, cids) = clone_matches(c2.as_slice(), &m, before);
+                chk!(s, ok, "C15.consumer.clone_has_one_fresh_clone_per_untaken_element_in_order");
+                chk!(s, slice_matches(c.as_slice(), &m), "C15.consumer.clone_leaves_original");
+                let rem = m.rem();
+                let keep_clone = s.bool();
+                let mut sv = if keep_clone {
+                    drop(c);
+                    chk!(s, rem_count(&m.ids, m.lo, m.hi, 1), "C15.consumer.drop_drops_untaken_elements_exactly_once");
+                    chk!(s, rem_count(&cids, 0, rem, 0), "C15.consumer.drop_of_original_leaves_clone_elements");
+                    let mut np = [0u32; 4];
+                    let mut j = 0;
+                    while j < 3 {
+                        if j < rem {
+                            np[j] = m.pay[m.lo + j];
+                        }
+                        j += 1;
+                    }
+                    m = Model { ids: cids, pay: np, lo: 0, hi: rem };
+                    c2
+                } else {
+                    drop(c2);
+                    chk!(s, rem_count(&cids, 0, rem, 1), "C15.consumer.drop_drops_untaken_elements_exactly_once");
+                    chk!(s, rem_count(&m.ids, m.lo, m.hi, 0), "C15.consumer.drop_of_clone_leaves_original_elements");
+                    c
+                };
+                chk!(s, slice_matches(sv.as_slice(), &m), "C15.consumer.as_slice_is_untaken_middle");
+                let more = s.bool();
+                if more {
+                    let front = s.bool();
+                    take_one!(s, sv, m, front);
+                }
+                drop(sv);
+                chk!(s, all_once(), "C15.consumer.every_element_handed_over_or_dropped_exactly_once");
+                cov!(s, keep_clone && rem == N && more, "C15.cover.consumer_clone_of_everything_survives");
+                cov!(s, !keep_clone && rem + 1 == N, "C15.cover.consumer_clone_after_take_dropped");
+                cov!(s, rem == 0, "C15.cover.consumer_clone_of_exhausted");
+            }
+        }
+    };
+}
+
+c15_consumer_clone! {c15_consumer_clone_n1, 1, |p| [fresh(p[0])]}
+c15_consumer_clone! {c15_consumer_clone_n2, 2, |p| [fresh(p[0]), fresh(p[1])]}
+c15_consumer_clone! {c15_consumer_clone_n3, 3, |p| [fresh(p[0]), fresh(p[1]), fresh(p[2])]}
 
 harness! {
     /// kind=bounded tier=quick bound="ArrayConsumer::<L, N>::empty(), N in {0,1,2,3}: next, next_back, as_slice, clone, drop"
@@ -404,7 +471,7 @@ harness! {
 macro_rules! c15_builder {
     ($name:ident, $n:literal) => {
         harness! {
-            /// kind=bounded tier=quick bound="ArrayBuilder<L, N>, N fixed per harness (0,1,2,3), symbolic u32 payloads; symbolic sequence of <= N+2 steps among push (while not full) / as_slice / as_mut_slice with a payload overwrite / clone (at most 2; the clone is dropped at once or replaces the original, which is dropped); then build (if full) or drop"
+            /// kind=bounded tier=quick bound="ArrayBuilder<L, N>, N fixed per harness (0,1,2,3), symbolic u32 payloads; symbolic sequence of <= N+2 steps among push (while not full) / as_slice / as_mut_slice with a payload overwrite of the first element; then build (if full) or drop"
             #[kani::unwind(18)]
             fn $name(s) {
                 const N: usize = $n;
@@ -412,12 +479,11 @@ macro_rules! c15_builder {
                 let mut m = Model { ids: [0; 4], pay: [0; 4], lo: 0, hi: 0 };
                 let mut b = ArrayBuilder::<L, N>::new();
                 let steps = s.upto(N + 2);
-                let mut clones = 0;
-                let mut swapped = false;
+                let mut looked = false;
                 let mut step = 0;
                 while step < N + 2 {
                     if step < steps {
-                        match s.upto(3) {
+                        match s.upto(2) {
                             0 => {
                                 s.assume(m.hi < N);
                                 let p = s.u32();
@@ -430,38 +496,15 @@ macro_rules! c15_builder {
                             }
                             1 => {
                                 chk!(s, b.len() == m.hi && slice_matches(b.as_slice(), &m), "C15.builder.as_slice_is_pushed_elements");
-                            }
-                            2 => {
-                                let sl = b.as_mut_slice();
-                                chk!(s, slice_matches(sl, &m), "C15.builder.as_mut_slice_is_pushed_elements");
-                                if m.hi > 0 {
-                                    let j = s.upto(m.hi - 1);
-                                    let p = s.u32();
-                                    if j < sl.len() {
-                                        sl[j].payload = p;
-                                    }
-                                    m.pay[j] = p;
-                                }
+                                looked = true;
                             }
                             _ => {
-                                s.assume(clones < 2);
-                                clones += 1;
-                                let before = next_id();
-                                let b2 = b.clone();
-                                let (ok, cids) = clone_matches(b2.as_slice(), &m, before);
-                                chk!(s, ok && b2.len() == m.hi, "C15.builder.clone_has_one_fresh_clone_per_pushed_element_in_order");
-                                chk!(s, slice_matches(b.as_slice(), &m), "C15.builder.clone_leaves_original");
-                                if s.bool() {
-                                    drop(b2);
-                                    chk!(s, rem_count(&cids, 0, m.hi, 1), "C15.builder.drop_drops_pushed_elements_exactly_once");
-                                    chk!(s, rem_count(&m.ids, 0, m.hi, 0), "C15.builder.drop_of_clone_leaves_original_elements");
-                                } else {
-                                    let old = core::mem::replace(&mut b, b2);
-                                    drop(old);
-                                    chk!(s, rem_count(&m.ids, 0, m.hi, 1), "C15.builder.drop_drops_pushed_elements_exactly_once");
-                                    chk!(s, rem_count(&cids, 0, m.hi, 0), "C15.builder.drop_of_original_leaves_clone_elements");
-                                    m.ids = cids;
-                                    swapped = true;
+                                let sl = b.as_mut_slice();
+                                chk!(s, slice_matches(sl, &m), "C15.builder.as_mut_slice_is_pushed_elements");
+                                if m.hi > 0 && sl.len() > 0 {
+                                    let p = s.u32();
+                                    sl[0].payload = p;
+                                    m.pay[0] = p;
                                 }
                             }
                         }
@@ -486,9 +529,9 @@ macro_rules! c15_builder {
                     drop(b);
                 }
                 chk!(s, all_once(), "C15.builder.every_element_handed_over_or_dropped_exactly_once");
-                cov!(s, built && (N == 0 || swapped), "C15.cover.builder_built_from_clone");
+                cov!(s, built && (N == 0 || looked), "C15.cover.builder_built");
                 cov!(s, N == 0 || (!built && k == N), "C15.cover.builder_full_dropped");
-                cov!(s, N == 0 || (!built && k + 1 == N && clones == 1), "C15.cover.builder_partial_dropped");
+                cov!(s, N == 0 || (!built && k + 1 == N && looked), "C15.cover.builder_partial_dropped");
             }
         }
     };
@@ -498,6 +541,89 @@ c15_builder! {c15_builder_n0, 0}
 c15_builder! {c15_builder_n1, 1}
 c15_builder! {c15_builder_n2, 2}
 c15_builder! {c15_builder_n3, 3}
+
+macro_rules! c15_builder_clone {
+    ($name:ident, $n:literal) => {
+        harness! {
+            /// kind=bounded tier=quick bound="ArrayBuilder<L, N>, N fixed per harness (1,2,3), symbolic u32 payloads; k <= N pushes, then clone; either the clone or the original is dropped at once, the survivor is filled up (symbolically) and then built (if full) or dropped"
+            #[kani::unwind(18)]
+            fn $name(s) {
+                const N: usize = $n;
+                reset();
+                let mut m = Model { ids: [0; 4], pay: [0; 4], lo: 0, hi: 0 };
+                let mut b = ArrayBuilder::<L, N>::new();
+                let k = s.upto(N);
+                let fill = s.bool();
+                let mut j = 0;
+                while j < N {
+                    if j < k {
+                        let p = s.u32();
+                        let v = fresh(p);
+                        m.ids[m.hi] = v.id;
+                        m.pay[m.hi] = p;
+                        m.hi += 1;
+                        b.push(v);
+                    }
+                    j += 1;
+                }
+                let before = next_id();
+                let b2 = b.clone();
+                let (ok, cids) = clone_matches(b2.as_slice(), &m, before);
+                chk!(s, ok && b2.len() == k, "C15.builder.clone_has_one_fresh_clone_per_pushed_element_in_order");
+                chk!(s, slice_matches(b.as_slice(), &m), "C15.builder.clone_leaves_original");
+                let keep_clone = s.bool();
+                let mut sv = if keep_clone {
+                    drop(b);
+                    chk!(s, rem_count(&m.ids, 0, k, 1), "C15.builder.drop_drops_pushed_elements_exactly_once");
+                    chk!(s, rem_count(&cids, 0, k, 0), "C15.builder.drop_of_original_leaves_clone_elements");
+                    m.ids = cids;
+                    b2
+                } else {
+                    drop(b2);
+                    chk!(s, rem_count(&cids, 0, k, 1), "C15.builder.drop_drops_pushed_elements_exactly_once");
+                    chk!(s, rem_count(&m.ids, 0, k, 0), "C15.builder.drop_of_clone_leaves_original_elements");
+                    b
+                };
+                let mut j = 0;
+                while j < N {
+                    if fill && m.hi < N {
+                        let p = s.u32();
+                        let v = fresh(p);
+                        m.ids[m.hi] = v.id;
+                        m.pay[m.hi] = p;
+                        m.hi += 1;
+                        sv.push(v);
+                    }
+                    j += 1;
+                }
+                let built = m.hi == N && s.bool();
+                if built {
+                    let arr: [L; N] = sv.build();
+                    let mut ok = true;
+                    let mut j = 0;
+                    while j < N {
+                        if !is_elem(&arr[j], m.ids[j], m.pay[j]) {
+                            ok = false;
+                        }
+                        j += 1;
+                    }
+                    chk!(s, ok, "C15.builder.build_hands_over_every_pushed_element_in_order_unchanged");
+                    drop(arr);
+                } else {
+                    drop(sv);
+                }
+                chk!(s, all_once(), "C15.builder.every_element_handed_over_or_dropped_exactly_once");
+                cov!(s, built && keep_clone && k + 1 == N, "C15.cover.builder_built_from_filled_clone");
+                cov!(s, !built && !keep_clone && k == N, "C15.cover.builder_full_original_dropped");
+                cov!(s, k == 0 && !fill, "C15.cover.builder_clone_of_empty");
+            }
+        }
+    };
+}
+
+c15_builder_clone! {c15_builder_clone_n1, 1}
+c15_builder_clone! {c15_builder_clone_n2, 2}
+c15_builder_clone! {c15_builder_clone_n3, 3}
 
 // ---------------------------------------------------------------------------
 // konst::array::map_! with L elements; closure = most general client
@@ -533,7 +659,7 @@ macro_rules! lclient (
             $s.assume(false);
         }
         chk!($s, is_elem(&$x, k as u8, $rec.pay[k]), "C15.map_.closure_gets_each_element_once_in_order_unchanged");
-        chk!($s, none_twice(), "C15.map_.nothing_dropped_twice");
+        chk!($s, none_twice_upto(8), "C15.map_.nothing_dropped_twice");
         let c = if $mode == M_EXITS { $s.u8() } else { 0 };
         let early_drop = $s.bool();
         if $mode == M_BRK && k == $rec.at {
@@ -578,13 +704,12 @@ macro_rules! lclient (
     }};
 );
 
-/// forms: 0 `|x: L| expr`, 1 `|x: L| -> L {block}`, 2 untyped `|x| expr`
+/// forms: 0 untyped `|x| expr`, 1 `|x: L| -> L {block}` (the closure forms themselves are C11's business)
 fn run_map_l<S: Src, const N: usize>(s: &mut S, rec: &mut Rec, mode: u8, form: u8, arr: [L; N]) -> Option<[L; N]> {
     'outer: {
         let r: [L; N] = match form {
-            0 => konst::array::map_!(arr, |x: L| lclient!(s, rec, mode, N, 'outer, x)),
-            1 => konst::array::map_!(arr, |x: L| -> L { lclient!(s, rec, mode, N, 'outer, x) }),
-            _ => konst::array::map_!(arr, |x| lclient!(s, rec, mode, N, 'outer, x)),
+            0 => konst::array::map_!(arr, |x| lclient!(s, rec, mode, N, 'outer, x)),
+            _ => konst::array::map_!(arr, |x: L| -> L { lclient!(s, rec, mode, N, 'outer, x) }),
         };
         Some(r)
     }
@@ -595,16 +720,19 @@ fn new_rec<S: Src>(s: &mut S, at: usize) -> Rec {
 }
 
 macro_rules! c15_map_ok {
-    ($name:ident, $n:literal) => {
+    ($name:ident, $n:literal, |$p:ident| $arr:expr) => {
         harness! {
-            /// kind=bounded tier=quick bound="map_! over [L; N], N fixed per harness (0,1,2,3), 3 closure forms, symbolic u32 payloads; the closure runs to its end at every call and returns symbolically either its argument or a fresh value after dropping the argument"
+            /// kind=bounded tier=quick bound="map_! over [L; N], N fixed per harness (0,1,2,3), 2 closure forms, symbolic u32 payloads; the closure runs to its end at every call and returns symbolically either its argument or a fresh value after dropping the argument"
             #[kani::unwind(18)]
             fn $name(s) {
                 const N: usize = $n;
                 reset();
                 let mut rec = new_rec(s, 0);
-                let form = s.upto(2) as u8;
-                let arr: [L; N] = core::array::from_fn(|i| fresh(rec.pay[i]));
+                let form = s.upto(1) as u8;
+                let arr: [L; N] = {
+                    let $p = &rec.pay;
+                    $arr
+                };
                 let r = run_map_l::<S, N>(s, &mut rec, M_OK, form, arr);
                 let mut all_passed = true;
                 let mut none_passed = true;
@@ -633,29 +761,32 @@ macro_rules! c15_map_ok {
                     }
                 }
                 cov!(s, all_passed && form == 0, "C15.cover.map_all_moved_through");
-                cov!(s, none_passed && form == 2, "C15.cover.map_all_replaced");
-                cov!(s, N < 2 || (!all_passed && !none_passed && form == 1), "C15.cover.map_mixed");
+                cov!(s, none_passed && form == 1, "C15.cover.map_all_replaced");
+                cov!(s, N < 2 || (!all_passed && !none_passed), "C15.cover.map_mixed");
             }
         }
     };
 }
 
-c15_map_ok! {c15_map_ok_n0, 0}
-c15_map_ok! {c15_map_ok_n1, 1}
-c15_map_ok! {c15_map_ok_n2, 2}
-c15_map_ok! {c15_map_ok_n3, 3}
+c15_map_ok! {c15_map_ok_n0, 0, |p| []}
+c15_map_ok! {c15_map_ok_n1, 1, |p| [fresh(p[0])]}
+c15_map_ok! {c15_map_ok_n2, 2, |p| [fresh(p[0]), fresh(p[1])]}
+c15_map_ok! {c15_map_ok_n3, 3, |p| [fresh(p[0]), fresh(p[1]), fresh(p[2])]}
 
 macro_rules! c15_map_exits {
-    ($name:ident, $n:literal) => {
+    ($name:ident, $n:literal, |$p:ident| $arr:expr) => {
         harness! {
-            /// kind=bounded tier=quick bound="map_! over [L; N], N fixed per harness (1,2,3), 3 closure forms; every closure call chooses symbolically among value / break-to-outer-label / return (the argument dropped explicitly first or by scope exit)"
+            /// kind=bounded tier=quick bound="map_! over [L; N], N fixed per harness (1,2,3), 2 closure forms; every closure call chooses symbolically among value / break-to-outer-label / return (the argument dropped explicitly first or by scope exit)"
             #[kani::unwind(18)]
             fn $name(s) {
                 const N: usize = $n;
                 reset();
                 let mut rec = new_rec(s, 0);
-                let form = s.upto(2) as u8;
-                let arr: [L; N] = core::array::from_fn(|i| fresh(rec.pay[i]));
+                let form = s.upto(1) as u8;
+                let arr: [L; N] = {
+                    let $p = &rec.pay;
+                    $arr
+                };
                 let r = run_map_l::<S, N>(s, &mut rec, M_EXITS, form, arr);
                 let some = r.is_some();
                 match r {
@@ -679,14 +810,14 @@ macro_rules! c15_map_exits {
     };
 }
 
-c15_map_exits! {c15_map_exits_n1, 1}
-c15_map_exits! {c15_map_exits_n2, 2}
-c15_map_exits! {c15_map_exits_n3, 3}
+c15_map_exits! {c15_map_exits_n1, 1, |p| [fresh(p[0])]}
+c15_map_exits! {c15_map_exits_n2, 2, |p| [fresh(p[0]), fresh(p[1])]}
+c15_map_exits! {c15_map_exits_n3, 3, |p| [fresh(p[0]), fresh(p[1]), fresh(p[2])]}
 
 macro_rules! c15_map_skip {
-    ($name:ident, $n:literal) => {
+    ($name:ident, $n:literal, |$p:ident| $arr:expr) => {
         harness! {
-            /// kind=bounded tier=quick bound="map_! over [L; N], N fixed per harness (1,2,3), 3 closure forms; one unlabelled break or continue at a symbolic call number < N: ArrayBuilder::build must panic; only the ledger before the panic is observable (no unwinding under Kani)" expect_fail="in konst::array::ArrayBuilder::<.*>::build"
+            /// kind=bounded tier=quick bound="map_! over [L; N], N fixed per harness (1,2,3), 2 closure forms; one unlabelled break or continue at a symbolic call number < N: ArrayBuilder::build must panic; only the ledger before the panic is observable (no unwinding under Kani)" expect_fail="in konst::array::ArrayBuilder::<.*>::build"
             #[kani::unwind(18)]
             fn $name(s) {
                 const N: usize = $n;
@@ -694,8 +825,11 @@ macro_rules! c15_map_skip {
                 let at = s.upto(N - 1);
                 let mode = if s.bool() { M_BRK } else { M_CONT1 };
                 let mut rec = new_rec(s, at);
-                let form = s.upto(2) as u8;
-                let arr: [L; N] = core::array::from_fn(|i| fresh(rec.pay[i]));
+                let form = s.upto(1) as u8;
+                let arr: [L; N] = {
+                    let $p = &rec.pay;
+                    $arr
+                };
                 cov!(s, at == N - 1 && mode == M_BRK, "C15.cover.map_break_at_last_call");
                 cov!(s, at == 0 && mode == M_CONT1, "C15.cover.map_continue_at_first_call");
                 let r = run_map_l::<S, N>(s, &mut rec, mode, form, arr);
@@ -705,9 +839,9 @@ macro_rules! c15_map_skip {
     };
 }
 
-c15_map_skip! {c15_map_skip_panics_n1, 1}
-c15_map_skip! {c15_map_skip_panics_n2, 2}
-c15_map_skip! {c15_map_skip_panics_n3, 3}
+c15_map_skip! {c15_map_skip_panics_n1, 1, |p| [fresh(p[0])]}
+c15_map_skip! {c15_map_skip_panics_n2, 2, |p| [fresh(p[0]), fresh(p[1])]}
+c15_map_skip! {c15_map_skip_panics_n3, 3, |p| [fresh(p[0]), fresh(p[1]), fresh(p[2])]}
 
 // ---------------------------------------------------------------------------
 // konst::destructure!: an enumeration of pattern shapes (programs); payloads symbolic
